@@ -171,4 +171,6 @@ def git_index(req):
         shutil.rmtree(d, ignore_errors=True)
 
 
-HANDLERS = dict(entry=entry, read_entry=read_entry, helpers=helpers, index_file=index_file, git_index=git_index)
+from impl_C11_ext import ext_sweep
+
+HANDLERS = dict(entry=entry, read_entry=read_entry, helpers=helpers, index_file=index_file, git_index=git_index, ext_sweep=ext_sweep)
